@@ -1,7 +1,8 @@
 (* C03 — the generated client emits exactly the request the operation describes (PARTIAL: the encodings; the
    request actually put on the wire is captured in the arena and judged with the decoder below). *)
 From Coq Require Import List Bool NArith Lia.
-From OAS Require Import Model.Wire Proof.Wire.
+From Coq Require Import String.
+From OAS Require Import Model.Wire Proof.Wire Gen.Params.
 Import ListNotations.
 Local Open Scope N_scope.
 
@@ -38,6 +39,18 @@ Check C03_segment_stays_one : forall bs, (forall b, In b bs -> b < 256) -> no_de
 Check C03_layout_joined : forall st name vs,
   vs <> [] -> (forall v, In v vs -> forallb (fun c => negb (N.eqb c (delimiter st))) v = true) ->
   exists joined, layout st false name (Some vs) = [(name, joined)] /\ split (delimiter st) joined = vs.
+
+(* tie to the source: Gen/Params.v is regenerated on every run from converter/parameters.rs (default of `explode`) and
+   ast/fields.rs (separator per style); the translator fails closed on any other shape.  The model's reading:
+   explode defaults to true exactly for style form (or no style), and the delimiters are those of [delimiter]. *)
+Definition explode_default (st : option style) : bool := match st with None | Some Form => true | _ => false end.
+Example C03_explode_default_from_source :
+  explode_default_true_styles = ["None"; "Form"]%string
+  /\ separator_of_style = [("SpaceDelimited", "Space"); ("PipeDelimited", "Pipe")]%string /\ separator_default = "Comma"%string
+  /\ explode_default None = true /\ explode_default (Some Form) = true
+  /\ explode_default (Some SpaceDelimited) = false /\ explode_default (Some PipeDelimited) = false
+  /\ delimiter SpaceDelimited = 32 /\ delimiter PipeDelimited = 124 /\ delimiter Form = 44.
+Proof. vm_compute. repeat split; reflexivity. Qed.
 
 (* non-vacuity: "a/b c" + U+00E9 *)
 Example C03_nonvacuous :
